@@ -35,6 +35,12 @@ FIXED = [
  ("C19", "recognise the real XHTML namespace URI", "the HTML5 serializer only knew https://www.w3.org/1999/xhtml as the XHTML namespace: elements in the real namespace http://www.w3.org/1999/xhtml were written prefixed (h:p), void elements got end tags, script / style text was escaped"),
  ("C19", "text node without an element parent", "html5().to_string of a fragment (text directly under a document node) or of a single text node panicked (Option::unwrap on None in Html5Serializer::render_output)"),
  ("C19", "ends with its element", "the xmlns declaration the HTML5 serializer adds for an SVG / MathML / XHTML element was recorded in the enclosing scope and never removed: a later sibling in that namespace (outside the svg element) was written unprefixed with no default-namespace declaration"),
+ ("C06", "replace does not touch a previous sibling that was merged away", "replace(y, x) where x sits between two text nodes one of which is y's previous sibling and y has a next sibling (a<x/>b<y/><z/>): moving x merged b into a, then the freed b was accessed: panic 'Try to access a freed node' (left over from the earlier replace repair)"),
+ ("C06", "create_missing_prefixes on a document node repairs every top-level element", "create_missing_prefixes(document) panicked (unwrap of NoElementAtTopLevel) on a document without element child, and repaired only the first top-level element of a fragment"),
+ ("C09", "know that the xml prefix is always bound", "unresolved_namespaces reported the xml namespace for xml:lang / xml:space attributes although the xml prefix is always bound"),
+ ("C10", "know that the xml prefix is always bound", "create_missing_prefixes on a tree with an xml:lang attribute bound a generated prefix n0 to the xml namespace; the serializer never writes a declaration for that namespace, so the output had n0:lang with n0 undeclared and did not re-parse"),
+ ("C02", "local name xmlns (a:xmlns) is an ordinary attribute", "an attribute with a prefix and the local name xmlns (a:xmlns=\"v\") was taken for a default-namespace declaration: the attribute disappeared and unprefixed names changed namespace"),
+ ("C13", "compare attribute and namespace nodes by value", "deep_equal / advanced_deep_equal of two attribute nodes or two namespace nodes returned true whatever their names and values (such nodes produce no traversal events)"),
  ("C13", "shallow_equal_ignore_attributes counts", "shallow_equal_ignore_attributes with a name repeated in the ignore list that b carries: the name was subtracted twice (usize underflow panic in dev, wrong answer in release)"),
 ]
 
